@@ -30,6 +30,9 @@ CLAIMED = {
  "C20": ("exploration", "end-to-end differential monitor (client bytes vs. bytes stored in the Redis stand-in)",
    "Whole path broker -> coordinator encoding -> two real proxies -> FakeRedis; every writer/reader pair, value class, strategy and redirect mode; stored bytes are zstd-decoded and compared, replies compared byte-for-byte, restricted commands must be refused and not executed.",
    "section 2, C20"),
+ "C14": ("exploration", "whole-system monitor: parsed topology replies vs broker view, task state and routing probes",
+   "Frozen-phase migration scenarios and hand-built layouts; CLUSTER NODES/SLOTS of every member proxy parsed per slot in each state and compared with the broker view, the proxy's own migration task state and routing probes.",
+   "section 2, C14"),
  "C15": ("exploration", "differential monitor against a strict reference RESP parser/encoder",
    "Generated values and pipelines, every 1-cut split of short streams plus random k-cut splits, through all eight decoder entry points (incl. RespCodec under FramedRead and the paired multi codec) and seven encoder entry points; negative inputs judged by the reference parser.",
    "section 2, C15"),
